@@ -171,7 +171,8 @@ def finish(prop, tier, seed, level, res, coverage, assumptions, t0, replay_hint=
     for sig, vs in sorted(hit.items()):
         print("KNOWN-FINDING: property=%s %s (%d cases this run; e.g. %s)" % (
             prop, known_sigs[sig]["what"], res.counts.get("viol:" + sig, len(vs)), json.dumps(vs[0]["case"])[:300]))
-    rdir = os.path.join(HERE, "replay", prop)
+    out_root = os.environ.get("VERIF_OUT") or HERE      # seed tests write evidence/replay elsewhere
+    rdir = os.path.join(out_root, "replay", prop)
     if os.path.isdir(rdir):
         for fn in os.listdir(rdir):
             if fn.endswith(".json"):
@@ -201,8 +202,8 @@ def finish(prop, tier, seed, level, res, coverage, assumptions, t0, replay_hint=
         "coverage": cov, "assumptions": assumptions,
         "wall_s": round(perf() - t0, 2), "violations": len(new),
     }
-    os.makedirs(os.path.join(HERE, "evidence"), exist_ok=True)
-    with open(os.path.join(HERE, "evidence", "%s.json" % prop), "w") as f:
+    os.makedirs(os.path.join(out_root, "evidence"), exist_ok=True)
+    with open(os.path.join(out_root, "evidence", "%s.json" % prop), "w") as f:
         json.dump(ev, f, indent=1, sort_keys=True)
     print("%s %s: %s  wall=%.1fs  new_violations=%d known=%d" % (
         prop, tier, json.dumps({k: v for k, v in cov.items() if isinstance(v, (int, bool))}),
